@@ -672,7 +672,7 @@ def gen_localname_cases(rng: random.Random, tier: str) -> List[Dict[str, Any]]:
             f"local:{kind}:result", ("local", kind, "result"))
         add([local_stmt(kind, "R_loc", "JN_3"), plain_stmt("R_z", "JN_2 + 1", ["JN_2"], False), plain_stmt("R_c", "JN_3 + 1", ["JN_3"], True)],
             f"local:{kind}:input", ("local", kind, "input"))
-    for i in range(60 if tier == "thorough" else 3):
+    for i in range(60 if tier == "thorough" else 2):
         k1, k2 = rng.sample(LOCAL_KINDS, 2)
         L = rng.choice(["a", "res", "JN_3"])
         st = [local_stmt(k1, "R_loc", L), local_stmt(k2, "R_lo2", L, pers=rng.random() < 0.5)]
